@@ -25,14 +25,18 @@ func (f *indexedField) MarshalJSON() ([]byte, error) {
 }
 
 func (f *indexedField) UnmarshalJSON(data []byte) error {
-	var tuple []interface{}
+	var tuple []json.RawMessage
 	if err := json.Unmarshal(data, &tuple); err != nil {
 		return err
 	}
+	if len(tuple) != 2 {
+		return fmt.Errorf("%w: index entry must be [value, object id]", ErrUnknownKeyType)
+	}
+	// The value is kept raw until valueTypeFromString knows its type:
+	// decoding a number into interface{} goes through float64, which
+	// cannot represent every int64 / uint64 (timestamps, values > 2^53)
 	f.Value = tuple[0]
-	// Json unmarshals integer to interface{} as float64
-	f.ObjectId = uint64(tuple[1].(float64))
-	return nil
+	return json.Unmarshal(tuple[1], &f.ObjectId)
 }
 
 func (f *indexedField) String() string {
@@ -75,20 +79,35 @@ func newIndexedField(value interface{}, objid uint64) (*indexedField, error) {
 	return &indexedField{value, objid}, err
 }
 
-func (f *indexedField) valueTypeFromString(t string) {
-	// we cast everything to float64 because json unmarshal interface{}
-	// to float64 and that is a current limitation of the indexing
+// valueTypeFromString decodes the raw JSON value kept by UnmarshalJSON
+// into the Go type the index was built with, without loss of precision
+func (f *indexedField) valueTypeFromString(t string) (err error) {
+	raw, ok := f.Value.(json.RawMessage)
+	if !ok {
+		return fmt.Errorf("%w %T", ErrUnknownKeyType, f.Value)
+	}
+
 	switch t {
 	case "float64":
-		f.Value = f.Value.(float64)
+		var v float64
+		err = json.Unmarshal(raw, &v)
+		f.Value = v
 	case "int64":
-		f.Value = int64(f.Value.(float64))
+		var v int64
+		err = json.Unmarshal(raw, &v)
+		f.Value = v
 	case "uint64":
-		f.Value = uint64(f.Value.(float64))
+		var v uint64
+		err = json.Unmarshal(raw, &v)
+		f.Value = v
 	case "string":
+		var v string
+		err = json.Unmarshal(raw, &v)
+		f.Value = v
 	default:
-		panic(fmt.Errorf("%w %s", ErrUnknownKeyType, t))
+		err = fmt.Errorf("%w %s", ErrUnknownKeyType, t)
 	}
+	return
 }
 
 func (f *indexedField) valueTypeString() string {
